@@ -256,7 +256,8 @@ def rich_family(rng, n_masters=2, axes=1, **kw):
         m["info"]["styleName"] = f"Bold{k}"
         if "colon" in m["glyphs"] and rng.random() < 0.4:
             # the upper dot is enlarged in this master only (a 2x2 that differs between masters cannot be kept as a component)
-            m["glyphs"]["colon"]["comps"][0]["m"] = [80, 0, 0, 80]
+            # (which of the two: decided by a value drawn earlier, so that no further random draw is consumed)
+            m["glyphs"]["colon"]["comps"][(base["glyphs"]["colon"]["comps"][0]["d"][1] // PS) % 2]["m"] = [80, 0, 0, 80]
         if "kerning" in m:
             m["kerning"] = [[l, r, v + rng.randint(-20, 20) * 4] for l, r, v in m["kerning"]]
             if rng.random() < 0.6 and len(m["kerning"]) > 2:
